@@ -152,7 +152,7 @@ def sym_with_gaps(rng, n, gap=0.4):
     return (Q * lam) @ Q.T
 
 
-LAYOUTS = ['C', 'F', 'T', 'strided', 'reversed']
+LAYOUTS = ['C', 'F', 'T', 'strided', 'reversed', 'unaligned']
 
 
 def relayout(data, mode):
@@ -161,7 +161,13 @@ def relayout(data, mode):
     transposed view of a C-contiguous buffer); strided: every second element of a larger buffer along the last axis;
     reversed: negative stride along the last axis"""
     data = np.asarray(data)
-    if mode == 'C' or data.ndim < 3:
+    if mode == 'unaligned' and data.size and data.dtype.itemsize > 1:
+        # a C-ordered array whose buffer starts at an odd byte offset (a field of a packed record, a slice of a byte stream)
+        raw = np.zeros(data.nbytes + 1, dtype=np.uint8)
+        out = raw[1:].view(data.dtype).reshape(data.shape)
+        out[...] = data
+        return out
+    if mode in ('C', 'unaligned') or data.ndim < 3:
         return np.array(data, order='C', copy=True)
     if mode == 'F':
         return np.array(data, order='F', copy=True)
